@@ -8,6 +8,9 @@ Streams
                      `form-data; name="…"; filename="…"` come back exactly
   encoder-events     real MultipartEncoder output for event sequences vs the model; oracle: decoding the
                      output with MultipartDecoder gives the parts that were encoded
+  client-encode      werkzeug.test.encode_multipart (stream_encode_multipart: event order, 16 KiB Data events,
+                     content-type defaulting, Headers.update) vs Model/MultipartClient.lean; oracle: parsing the
+                     bytes gives back names, text values, file names, content types, contents
   client-roundtrip   EnvironBuilder(data=…, query_string=…) -> Request.form / files / args and
                      encode_multipart -> MultiPartParser; oracle: identical names, values, filenames,
                      content types, byte-exact contents, order
@@ -643,7 +646,8 @@ CHECK = Check(
         "urllib.parse quote_plus / urlencode / unquote / parse_qsl are stdlib: modelled by hand-written functions and validated by stream urlencode-kernels, not verified",
         "UTF-8 is Lean core's encoder / strict decoder (round trip proved in Util/Bytes.lean); lone surrogates are outside the domain (Python str may hold them, List Char cannot)",
         "parse_options_header is modelled in Model/FormOptions.lean (token / quoted parameters, RFC 2231 numbered continuations); the charset form key*=… is outside the model",
-        "mimetypes.guess_type, SpooledTemporaryFile spooling and the random boundary of stream_encode_multipart are not modelled; EnvironBuilder -> Request is covered by the stream oracle only",
+        "stream_encode_multipart is modelled by its event sequence (Model/MultipartClient.lean: event order, 16 KiB Data events, content-type defaulting, Headers.set) and validated by stream client-encode; mimetypes.guess_type is an opaque parameter of that model, SpooledTemporaryFile spooling, the random default boundary and EnvironBuilder's own argument handling (files vs form, content type selection) are covered by stream client-roundtrip only",
+        "the request side of the urlencoded round trip uses C10's request-level model (Model/FormLimitsRequest.lean; BytesIO-like wsgi.input)",
     ],
     trusted_extra=["CPython urllib.parse / codecs error-handler protocol for the modelled primitives (validated by stream urlencode-kernels, not verified)"],
     quick_budget=20000,
@@ -651,8 +655,8 @@ CHECK = Check(
 )
 
 MANIFEST = {
-    "level_text": "Machine-checked Lean 4 theorems about executable models of quote_plus/urlencode/unquote/parse_qsl (safe set regenerated from werkzeug.urls._urlencode by AST), of parse_options_header and of MultipartEncoder/MultipartDecoder: percent-encoding round trips for every byte string, parse_qsl(urlencode(items)) = items for every list of Unicode pairs, Content-Disposition name/filename come back exactly, and decode(encode(parts)) = parts for every boundary, every list of valid parts and every chunking of the encoded body; models tied to the code by differential streams, the encode->parse oracle runs on the real encoder, test client and parsers.",
-    "level_note": "Trusted: Lean kernel; extract.py; harness; CPython urllib/codecs for modelled primitives. FileStorage / charset / test-client layers above the decoder are covered by the correspondence + oracle streams.",
+    "level_text": "Machine-checked Lean 4 theorems about executable models of quote_plus/urlencode/unquote/parse_qsl (safe set regenerated from werkzeug.urls._urlencode by AST), of parse_options_header (quoted-value replace steps and token classes regenerated from the source / live regexes), of MultipartEncoder/MultipartDecoder and of the test client's stream_encode_multipart: percent-encoding round trips for every byte string, parse_qsl(urlencode(items)) = items and Request.form of the urlencoded body = items for every list of Unicode pairs, Content-Disposition name/filename come back exactly, decode(encode(parts)) = parts for every boundary, every list of valid parts and every chunking, and what the test client writes for any mix of text and file values comes back through MultiPartParser (any buffer_size, any short-read schedule) as exactly the fields, file names, content types and byte-exact contents; models tied to the code by differential streams, the encode->parse oracle runs on the real encoder, test client and parsers.",
+    "level_note": "Trusted: Lean kernel; extract.py; harness; CPython urllib/codecs for modelled primitives. mimetypes.guess_type is opaque; FileStorage / SpooledTemporaryFile / EnvironBuilder argument handling above the models are covered by the correspondence + oracle streams.",
     "technique": "Lean 4 proof (induction over byte lists / item lists, decide over generated tables) + model/code correspondence",
     "design_ref": "DESIGN.md section 4, C02",
 }
